@@ -18,6 +18,7 @@ type xsheet struct {
 	SheetID int
 	RID     string
 	Path    string // ZIP member name
+	Target  string // overrides the Target written to workbook.xml.rels
 	Head    string // A1 (shared string when the table exists, else inline)
 	Body    string // A2 (always an inline string)
 	SST     int    // index of Head in the shared string table
@@ -45,6 +46,9 @@ const xhdr = `<?xml version="1.0" encoding="UTF-8" standalone="yes"?>` + "\n"
 const xrelT = "http://schemas.openxmlformats.org/officeDocument/2006/relationships/"
 
 func (b *xbook) target(s xsheet) string {
+	if s.Target != "" {
+		return s.Target
+	}
 	if b.AbsTargets {
 		return "/" + s.Path
 	}
